@@ -79,6 +79,20 @@ func denoted(a *api, f string, b []byte) (d denotation, ok bool) {
 		} else {
 			d.second = mod(beInt(b[fs:]), p)
 		}
+	case "blsg2":
+		if b[0]>>6&1 == 1 {
+			d.identity = true
+			return d, true
+		}
+		half := fs / 2 // one F_p coefficient; the API's field element is c0 || c1
+		c := append([]byte{}, b[:half]...)
+		c[0] &= 0x1f
+		d.first = join384(mod(beInt(b[half:2*half]), p), mod(beInt(c), p)) // bytes carry c1 || c0
+		if f == "c" {
+			d.sign = int(b[0] >> 5 & 1)
+		} else {
+			d.second = join384(mod(beInt(b[3*half:]), p), mod(beInt(b[2*half:3*half]), p))
+		}
 	case "ed25519", "ed25519p":
 		if f == "c" {
 			v := leInt(b)
@@ -152,6 +166,13 @@ func propDenotes(a *api, f string, b []byte, pt any) *propFail {
 		var have bool
 		if a.name == "blsg1" {
 			have = got2.Cmp(sub(a.cv.p, got2, a.cv.p)) > 0 // lexicographically larger root
+		} else if a.name == "blsg2" {
+			y0, y1 := split384(got2) // c1 decides, c0 only when c1 = 0
+			if y1.Sign() != 0 {
+				have = y1.Cmp(sub(a.cv.p, y1, a.cv.p)) > 0
+			} else {
+				have = y0.Cmp(sub(a.cv.p, y0, a.cv.p)) > 0
+			}
 		} else {
 			have = got2.Bit(0) == 1
 		}
